@@ -1,136 +1,186 @@
-"""Translator: reads decision points out of /repo's current Rust sources and
-renders them as Gallina constants (coq/theories/Extracted.v).
+"""Translator: ties the Coq model to /repo's current Rust sources.
 
-Fail-closed: every fact is located by function name + a narrow pattern; a
-source shape that is not recognised yields the constant `None`-like marker
-(`fact_unrecognised`) *and* is reported in `broken`, so the property files that
-depend on it no longer compile and the check reports the property as no
-longer shown.  Nothing is ever defaulted to the expected value.
+Every Rust file the model mirrors is compared, after normalisation (comments
+stripped, whitespace collapsed), with a template of the text the model was
+written against (tools/templates/<file>.tmpl).  A template contains *holes*
+at the decision points for which the model has a parameter (comparison
+operators, arity-table rows, guards, wrapper shapes); each hole lists the
+alternatives the model can represent and the Gallina value of each
+(tools/templates/holes.json).  The values found are rendered into
+coq/theories/Extracted.v, which the property files instantiate.
+
+Fail-closed: a file that does not match its template (an edit outside a hole,
+or an alternative the model does not have) makes every fact of that file
+`unrecognised`; the property theorems that use them then no longer compile
+and the check reports the property as no longer shown.  Nothing is ever
+defaulted to the expected value for the proofs.  (`*_run` twins carry a
+best-effort value so that the executable model can still be run for the
+search for a failing input.)
 """
+import json
 import os
 import re
 
-
-def read(repo, rel):
-    with open(os.path.join(repo, rel), encoding="utf-8") as f:
-        return f.read()
-
-
-def fn_body(src, header_re):
-    """Text of the function whose header matches header_re (brace matching)."""
-    m = re.search(header_re, src)
-    if not m:
-        return None
-    i = src.index("{", m.end() - 1) if src[m.end() - 1] != "{" else m.end() - 1
-    depth = 0
-    j = i
-    while j < len(src):
-        if src[j] == "{":
-            depth += 1
-        elif src[j] == "}":
-            depth -= 1
-            if depth == 0:
-                return src[i:j + 1]
-        j += 1
-    return None
+HERE = os.path.dirname(os.path.abspath(__file__))
+TDIR = os.path.join(HERE, "templates")
+L, Rr = "⟦", "⟧"   # hole brackets
 
 
-def norm(s):
-    return re.sub(r"\s+", " ", s)
+def strip_comments(text):
+    out = []
+    for line in text.split("\n"):
+        i = 0
+        n = len(line)
+        res = []
+        while i < n:
+            c = line[i]
+            if c == '"':
+                j = i + 1
+                while j < n and line[j] != '"':
+                    if line[j] == "\\":
+                        j += 1
+                    j += 1
+                res.append(line[i:j + 1])
+                i = j + 1
+            elif c == "'":
+                # char literal or lifetime
+                m = re.match(r"'(\\.[^']*|[^'\\])'", line[i:])
+                if m:
+                    res.append(m.group(0))
+                    i += len(m.group(0))
+                else:
+                    res.append(c)
+                    i += 1
+            elif line.startswith("//", i):
+                break
+            else:
+                res.append(c)
+                i += 1
+        out.append("".join(res))
+    return "\n".join(out)
 
 
-class Facts:
-    def __init__(self):
-        self.defs = []      # (name, type, value or None)
-        self.broken = []    # (name, reason)
-
-    def add(self, name, typ, value, where):
-        if value is None:
-            self.broken.append((name, "pattern not recognised in " + where))
-        self.defs.append((name, typ, value, where))
+def normalise(text):
+    return re.sub(r"\s+", " ", strip_comments(text)).strip()
 
 
-def b(x):
-    return None if x is None else ("true" if x else "false")
+def tname(rel):
+    return rel.replace("/", "__") + ".tmpl"
 
 
-def pick(text, table):
-    """table: list of (regex, value). Exactly one must match."""
-    if text is None:
-        return None
-    hits = [v for (r, v) in table if re.search(r, text)]
-    if len(hits) != 1:
-        return None
-    return hits[0]
+def load_holes():
+    with open(os.path.join(TDIR, "holes.json"), encoding="utf-8") as f:
+        return json.load(f)
 
 
-def pretty_facts(repo, F):
-    src = read(repo, "runtime/src/error.rs")
-    nxt = fn_body(src, r"fn next\(&mut self\) -> Option<Self::Item> \{")
-    nxt = norm(nxt) if nxt else None
-    F.add("pretty_iter_stop_ge", "bool", b(pick(nxt, [
-        (r"if self\.byte_offset >= self\.source\.bytes\(\)\.len\(\) \{ return None; \}", True),
-        (r"if self\.byte_offset > self\.source\.bytes\(\)\.len\(\) \{ return None; \}", False),
-    ])), "runtime/src/error.rs: IndexedStringLineIterator::next")
-    # the remainder of next() must be the known line computation
-    shape_ok = nxt is not None and re.search(
-        r"let next_offset = self\.source\[self\.byte_offset\.\.\] \.bytes\(\) \.position\(\|b\| b == b'\\n'\) "
-        r"\.map\(\|p\| p \+ self\.byte_offset\) \.unwrap_or_else\(\|\| self\.source\.bytes\(\)\.len\(\)\) \+ 1; "
-        r"let result = IndexedStringLine \{ s: &self\.source\[self\.byte_offset\.\.next_offset - 1\], "
-        r"lineno: self\.lineno, start_offset: self\.byte_offset, end_offset: next_offset, \}; "
-        r"self\.lineno \+= 1; self\.byte_offset = next_offset; Some\(result\)", nxt) is not None
-    F.add("pretty_iter_shape", "bool", b(True if shape_ok else None),
-          "runtime/src/error.rs: IndexedStringLineIterator::next (line computation)")
-    fpe = fn_body(src, r"pub fn from_parse_error\(err: &ParseError, text: &str, source_file: Option<&str>\) -> Self \{")
-    fpe = norm(fpe) if fpe else None
-    F.add("pretty_find_end_ge", "bool", b(pick(fpe, [
-        (r"\.find\(\|l\| l\.start_offset <= err\.position && l\.end_offset >= err\.position\) \.unwrap\(\);", True),
-        (r"\.find\(\|l\| l\.start_offset <= err\.position && l\.end_offset > err\.position\) \.unwrap\(\);", False),
-    ])), "runtime/src/error.rs: from_parse_error (line search)")
-    F.add("pretty_col_by_position", "bool", b(pick(fpe, [
-        (r"let character_position = target_line \.s \.char_indices\(\) \.map\(\|\(cp, _c\)\| cp\) "
-         r"\.position\(\|cp\| cp == err\.position - target_line\.start_offset\) \.unwrap_or\(0\);", True),
-        (r"let character_position = target_line \.s \.char_indices\(\) \.map\(\|\(cp, _c\)\| cp\) "
-         r"\.filter\(\|cp\| \*cp < err\.position - target_line\.start_offset\) \.count\(\);", False),
-    ])), "runtime/src/error.rs: from_parse_error (column)")
-    plus1 = fpe is not None and len(re.findall(r"target_line\.lineno \+ 1", fpe)) == 2 \
-        and len(re.findall(r"character_position \+ 1", fpe)) == 3 \
-        and "caret_offset = character_position + 1" in fpe \
-        and "the_line = target_line.s.trim_end()" in fpe
-    F.add("pretty_output_shape", "bool", b(True if plus1 else None),
-          "runtime/src/error.rs: from_parse_error (1-based line/column, caret width, printed line)")
-
-
-SECTIONS = [pretty_facts]
+def match_file(repo, rel, holes):
+    """returns (values dict or None, diagnostic)"""
+    try:
+        with open(os.path.join(repo, rel), encoding="utf-8") as f:
+            actual = normalise(f.read())
+    except OSError as e:
+        return None, "cannot read: %s" % e
+    tp = os.path.join(TDIR, tname(rel))
+    with open(tp, encoding="utf-8") as f:
+        tmpl = f.read().strip()
+    parts = re.split(L + r"(\w+)" + Rr, tmpl)
+    rx = []
+    seen = set()
+    for i, p in enumerate(parts):
+        if i % 2 == 0:
+            rx.append(re.escape(p))
+        else:
+            alts = sorted(holes[p]["alts"].keys(), key=len, reverse=True)
+            if p in seen:
+                rx.append("(?P=%s)" % p)
+            else:
+                seen.add(p)
+                rx.append("(?P<%s>%s)" % (p, "|".join(re.escape(a) for a in alts)))
+    m = re.fullmatch("".join(rx), actual)
+    if m:
+        return {k: holes[k]["alts"][v] for k, v in m.groupdict().items()}, ""
+    # diagnostic: first position where the literal prefix stops matching
+    pos = 0
+    for i, p in enumerate(parts):
+        if i % 2 == 0:
+            if actual.startswith(p, pos):
+                pos += len(p)
+            else:
+                k = 0
+                while k < len(p) and pos + k < len(actual) and actual[pos + k] == p[k]:
+                    k += 1
+                return None, "differs near: ...%s" % actual[max(0, pos + k - 60):pos + k + 60]
+        else:
+            alts = sorted(holes[p]["alts"].keys(), key=len, reverse=True)
+            for a in alts:
+                if actual.startswith(a, pos):
+                    pos += len(a)
+                    break
+            else:
+                return None, "hole %s: unknown alternative near: ...%s" % (p, actual[pos:pos + 80])
+    return None, "trailing text differs"
 
 
 def render(repo):
-    F = Facts()
-    for s in SECTIONS:
-        s(repo, F)
+    spec = load_holes()
+    files = spec["files"]          # rel -> list of hole names
+    holes = spec["holes"]          # name -> {type, alts:{text: coq}, expected: coq}
+    records = spec["records"]      # record name -> {type, fields:{field: hole name or literal coq}}
+    values = {}
+    broken = []
+    file_ok = {}
+    for rel in files:
+        vals, diag = match_file(repo, rel, holes)
+        fid = re.sub(r"\W", "_", rel)
+        if vals is None:
+            file_ok[fid] = (False, rel, diag)
+            broken.append(("file_" + fid, "%s does not match the text the model mirrors (%s)" % (rel, diag)))
+            for h in files[rel]:
+                values[h] = None
+                broken.append((h, "in unrecognised file " + rel))
+        else:
+            file_ok[fid] = (True, rel, "")
+            for h in files[rel]:
+                if h not in vals:
+                    values[h] = None
+                    broken.append((h, "hole not present in template of " + rel))
+                else:
+                    values[h] = vals[h]
     out = ["(* GENERATED by tools/extract_facts.py from the Rust sources of the repository.",
-           "   Do not edit: regenerated on every check run. A fact whose source pattern",
-           "   was not recognised is rendered as `unrecognised` and breaks its users. *)",
-           "From PegV Require Import Utf8 Pretty.",
+           "   Do not edit: regenerated on every check run.  A fact whose source text was not",
+           "   recognised has type `unrecognised` and breaks the theorems that use it. *)",
+           "From PegV Require Import Utf8 State Terminals Fields Pretty Model.",
            "",
            "Inductive unrecognised := Unrecognised.",
            ""]
-    for (name, typ, value, where) in F.defs:
-        out.append("(* %s *)" % where)
-        if value is None:
-            out.append("Definition %s : unrecognised := Unrecognised." % name)
+    for fid, (ok, rel, diag) in sorted(file_ok.items()):
+        out.append("(* %s%s *)" % (rel, "" if ok else "  -- NOT RECOGNISED: " + diag.replace("*)", "* )").replace("(*", "( *")))
+        if ok:
+            out.append("Definition file_%s : bool := true." % fid)
         else:
-            out.append("Definition %s : %s := %s." % (name, typ, value))
+            out.append("Definition file_%s : unrecognised := Unrecognised." % fid)
     out.append("")
-    names = {n: v for (n, _, v, _) in F.defs}
-    if all(names.get(k) is not None for k in ("pretty_iter_stop_ge", "pretty_find_end_ge", "pretty_col_by_position")):
-        out.append("Definition pretty : pretty_cfg :=")
-        out.append("  {| iter_stop_ge := pretty_iter_stop_ge; find_end_ge := pretty_find_end_ge;")
-        out.append("     col_by_position := pretty_col_by_position |}.")
-    else:
-        out.append("Definition pretty : unrecognised := Unrecognised.")
+    for h in sorted(values):
+        t = holes[h]["type"]
+        if values[h] is None:
+            out.append("Definition x_%s : unrecognised := Unrecognised." % h)
+        else:
+            out.append("Definition x_%s : %s := %s." % (h, t, values[h]))
+        out.append("Definition x_%s_run : %s := %s." % (h, t, values[h] if values[h] is not None else holes[h]["expected"]))
     out.append("")
-    return "\n".join(out), F.broken
+    for rname, r in records.items():
+        used = set()
+        for v in r["fields"].values():
+            used.update(re.findall(r"\$(\w+)", v))
+        body = "; ".join("%s := %s" % (f, re.sub(r"\$(\w+)", r"x_\1", v)) for f, v in r["fields"].items())
+        body_run = "; ".join("%s := %s" % (f, re.sub(r"\$(\w+)", r"x_\1_run", v)) for f, v in r["fields"].items())
+        if all(values.get(u) is not None for u in used):
+            out.append("Definition %s : %s := {| %s |}." % (rname, r["type"], body))
+        else:
+            out.append("Definition %s : unrecognised := Unrecognised." % rname)
+        out.append("Definition %s_run : %s := {| %s |}." % (rname, r["type"], body_run))
+    out.append("")
+    return "\n".join(out), broken
 
 
 if __name__ == "__main__":
